@@ -35,6 +35,11 @@ def cast(v, kind):
     if kind == 'int':
         if is_bool(v) or is_int(v): return num(v)
         zv = Z(v)
+        if z3.is_app(zv) and zv.decl().kind() == z3.Z3_OP_TO_REAL:
+            return zv.arg(0)        # int(float(i)) == i
+        if z3.is_rational_value(zv):
+            fr = zv.as_fraction()
+            return int(fr) if fr >= 0 else -int(-fr)
         return z3.If(zv >= 0, z3.ToInt(zv), -z3.ToInt(-zv))
     if kind == 'float':
         return to_real(Z(num(v))) if is_z3(v) or True else v
@@ -272,9 +277,16 @@ class Models:
         use it, so a loop over d.items() and a specification over list(d) speak about the same order."""
         L = getattr(D, 'enum', None)
         if L is None:
+            n0 = len(st.pc)
             L = st.deref(self.list_of_set(D.dom, st))
             D.enum = L
+            D.enum_facts = list(st.pc[n0:])       # the enumeration's defining facts travel with it (it may be reused on another path)
             self.ex.use('A-NUMPY:iteration order of a dict is a fixed enumeration of its keys for as long as the dict is not modified')
+        else:
+            have = {f.get_id() for f in st.pc if is_z3(f)}
+            for f in D.enum_facts:
+                if is_z3(f) and f.get_id() not in have:
+                    st.assume(f)
         return st.alloc(SList(L.n, L.get, L.elem))
 
     def list_getitem(self, L, idx, st, node):
